@@ -31,7 +31,7 @@ ASSUMPTIONS = [
     "the generator's own arrays (PIL only for compositing semi-transparent pixels)",
 ]
 PERSONAS = ["other", "kitty-0.32"]
-SIZES = {"quick": 400, "thorough": 12000}
+SIZES = {"quick": 400, "thorough": 45000}
 MIN_EVENTS = {"cells compared": {"quick": 50000, "thorough": 1000000}}
 
 FG_DEFAULT = "FGDEF"
